@@ -7,7 +7,7 @@ ID = "C04"
 LEAN_MODULES = ["LhasaV.Props.C04"]
 VH_FEATURES = ["decoder"]
 PER_OP_SECONDS = 60
-THEOREMS = {
+THEOREMS = {"pm_init_matches_source": "full (translator tie): lha_pm1_init / lha_pm2_decoder_init of the working tree run, their states dumped on every run = the models' init", 
     "pm1_decode_serialise": "FULL STATEMENT (-pm1-): every well-formed description, any chunking/schedule, declared length <= expansion (< 4 GiB)",
     "pm2_decode_serialise": "FULL STATEMENT (-pm2-): every well-formed description incl. every table form at every rebuild point, declared length <= expansion",
     "history_refines_mtf": "full: every output sequence", "history_find": "full: both walking directions",
